@@ -45,9 +45,26 @@ DiskOf(C)       == LET S == {i \in 1..Len(C.kinds) : C.kinds[i] = "disk"}
                    IN IF S = {} THEN 0 ELSE CHOOSE i \in S : TRUE
 IsVal(r)        == r \notin {None, "err", "panic", "ok", "true", "false"}
 
-\* A layer that would exceed 90 % of its capacity with n more entries may
-\* evict (any entries, any number): the victim is left open.
-Pressure(Li, cap, n) == Cardinality(Held(Li)) + n > (cap * 9) \div 10
+\* Layer configuration C: kinds, caps (max_entries), hooks, and per layer
+\*   budget[i]  max_memory_bytes of a memory layer (0 = none given)
+\*   policy[i]  its eviction policy: "lru" | "lfu" | "fifo" | "random" | "ttl"
+\*   sizes      value name -> bytes (as the driver concretises the names)
+\* The policy only says WHICH entries go; the relations leave the victim open, so it is carried for
+\* the record (and for the machine of part 2, where "ttl" evicts nothing that has not expired).
+Size(C, v) == IF v \in DOMAIN C.sizes THEN C.sizes[v] ELSE 1000000      \* unknown bytes: assume large
+RECURSIVE SumSizes(_, _, _)
+SumSizes(C, Li, S) == IF S = {} THEN 0
+                      ELSE LET k == CHOOSE x \in S : TRUE IN Size(C, Li[k]) + SumSizes(C, Li, S \ {k})
+Bytes(C, Li) == SumSizes(C, Li, Held(Li))
+\* A layer may evict (any entries, any number: the victim is left open) when n more entries would take
+\* it over 90 % of max_entries, or inB more bytes over its byte budget.
+Press(C, i, Li, n, inB) ==
+  \/ Cardinality(Held(Li)) + n > (C.caps[i] * 9) \div 10
+  \/ C.budget[i] > 0 /\ Bytes(C, Li) + inB > C.budget[i]
+\* a value that is larger than the whole byte budget of a layer need not be stored there
+TooBig(C, i, v) == C.budget[i] > 0 /\ Size(C, v) > C.budget[i]
+RECURSIVE ItemsBytes(_, _, _)
+ItemsBytes(C, items, n) == IF n > Len(items) THEN 0 ELSE Size(C, items[n].v) + ItemsBytes(C, items, n + 1)
 
 KeysIn(items)     == {items[i].k : i \in 1..Len(items)}
 LastVal(items, k) == items[CHOOSE i \in 1..Len(items) :
@@ -67,10 +84,10 @@ G0(keys) == [fresh |-> [k \in keys |-> {}], stale |-> [k \in keys |-> {}],
 
 \* ------------------------------------------------ part 1: the relations
 \* writing k |-> v into one layer
-LayerPutOk(Li, Mi, cap, k, v) ==
-  /\ Mi[k] = v
+LayerPutOk(C, i, Li, Mi, k, v) ==
+  /\ Mi[k] = v \/ (Mi[k] = None /\ TooBig(C, i, v))
   /\ \A k2 \in DOMAIN Li \ {k} :
-        Mi[k2] = Li[k2] \/ (Mi[k2] = None /\ Pressure(Li, cap, IF Li[k] = None THEN 1 ELSE 0))
+        Mi[k2] = Li[k2] \/ (Mi[k2] = None /\ Press(C, i, Li, IF Li[k] = None THEN 1 ELSE 0, Size(C, v)))
 
 \* whole-cache puts (put, put_with_ttl, put_with_validation, batch_put): the
 \* value is stored and would be served first; slower layers may keep what they
@@ -78,12 +95,13 @@ LayerPutOk(Li, Mi, cap, k, v) ==
 PutsOk(C, L, M, items) ==
   LET ks    == KeysIn(items)
       lastk == items[Len(items)].k
-      press(i) == Pressure(L[i], C.caps[i], Cardinality(ks \ Held(L[i])))
+      press(i) == Press(C, i, L[i], Cardinality(ks \ Held(L[i])), ItemsBytes(C, items, 1))
   IN /\ \A k \in ks :
           LET v == LastVal(items, k)
               h == HitLayer(M, k)
           IN /\ \/ h > 0 /\ M[h][k] = v
                 \/ k # lastk /\ \E i \in LayersOf(L) : press(i)   \* evicted again by a later item of the batch
+                \/ \E i \in LayersOf(L) : TooBig(C, i, v)
              /\ \A i \in LayersOf(L) : M[i][k] \in {v, None, L[i][k]}
      /\ \A i \in LayersOf(L) : \A k2 \in DOMAIN L[i] \ ks :
           M[i][k2] = L[i][k2] \/ (M[i][k2] = None /\ press(i))
@@ -93,8 +111,9 @@ PromoFrame(C, L, M, ks) ==
   \A i \in LayersOf(L) : \A k \in DOMAIN L[i] :
      \/ M[i][k] = L[i][k]
      \/ k \in ks /\ i < HitLayer(L, k) /\ M[i][k] = First(L, k)
-     \/ /\ M[i][k] = None /\ Pressure(L[i], C.caps[i], 1)
-        /\ \E k2 \in ks \ {k} : i < HitLayer(L, k2) /\ M[i][k2] = First(L, k2)
+     \/ /\ M[i][k] = None
+        /\ \E k2 \in ks \ {k} : /\ i < HitLayer(L, k2) /\ M[i][k2] = First(L, k2)
+                                 /\ Press(C, i, L[i], 1, Size(C, First(L, k2)))
 
 GetOk(C, g, L, k, r, M) ==
   \/ r = First(L, k) /\ PromoFrame(C, L, M, {k})
@@ -115,7 +134,7 @@ LayerOk(C, g, L, e, M) ==
     [] e.op = "put_layer" ->
          IF ~Bound(C, L, e.layer) THEN r = "err" /\ Same(L, M)
          ELSE LET i == e.layer + 1 IN
-              r = "ok" /\ LayerPutOk(L[i], M[i], C.caps[i], e.k, e.v) /\ SameBut(L, M, i)
+              r = "ok" /\ LayerPutOk(C, i, L[i], M[i], e.k, e.v) /\ SameBut(L, M, i)
     [] e.op = "get" -> GetOk(C, g, L, e.k, r, M)
     [] e.op = "get_val" ->
          LET r0 == First(L, e.k) IN
@@ -145,7 +164,7 @@ LayerOk(C, g, L, e, M) ==
          ELSE LET f == e.from + 1
                   t == e.to + 1
                   copy == /\ r = "true" /\ L[f][e.k] # None
-                          /\ LayerPutOk(L[t], M[t], C.caps[t], e.k, L[f][e.k]) /\ SameBut(L, M, t)
+                          /\ LayerPutOk(C, t, L[t], M[t], e.k, L[f][e.k]) /\ SameBut(L, M, t)
               IN \/ r = "err" /\ e.k \in g.del /\ Same(L, M)
                  \/ f > t /\ (IF L[f][e.k] # None THEN copy ELSE r = "false" /\ Same(L, M))
                  \/ f <= t /\ ((r = "false" /\ Same(L, M)) \/ (f < t /\ copy))
@@ -252,10 +271,11 @@ HangF12a(g, L, op) == op.op = "get" /\ HitLayer(L, op.k) > 1 /\ op.k \in g.trk
 \* ------------------------------------------- part 2: code-shaped machine
 CONSTANTS Keys, Vals,     \* key and value names (strings)
           Kinds, Caps,    \* per layer: "mem" | "disk", max_entries
+          Budgets, Policies, Sizes,   \* per layer: max_memory_bytes (0 = none), eviction policy; value name -> bytes
           Hooks,          \* validation hooks installed
           Fixed           \* subset of {"F12a", "F12b"}: repaired variants of the code
 
-Cfg == [kinds |-> Kinds, caps |-> Caps, hooks |-> Hooks]
+Cfg == [kinds |-> Kinds, caps |-> Caps, hooks |-> Hooks, budget |-> Budgets, policy |-> Policies, sizes |-> Sizes]
 NL  == Len(Kinds)
 Dk  == DiskOf(Cfg)
 Idle == [op |-> "idle"]
@@ -277,13 +297,28 @@ Empty == [i \in 1..NL |-> [k \in Keys |-> None]]
 MInit == /\ L = Empty /\ trk = {} /\ lock = "free" /\ pc = "idle" /\ cur = Idle /\ at = 0
          /\ shortE = {} /\ delP = {} /\ done = Idle /\ pre = Empty /\ g = G0(Keys) /\ gp = G0(Keys)
 
-\* MemoryCache::put_with_ttl: at max_entries evict down to 90 % (victim open), then insert
-EvictSets(Li, cap) ==
+\* MemoryCache::put_with_ttl / perform_eviction for layer i and an incoming value v:
+\*  - a value larger than the whole byte budget is not stored and the key is dropped;
+\*  - at max_entries: evict down to 90 % (victims by policy = left open; policy "ttl" evicts only
+\*    expired entries, i.e. none here: expiry is the tick's business);
+\*  - over the byte budget: evict one entry at a time (a tenth of the entries, at least one) until the
+\*    value fits or nothing is left; with policy "ttl" a round that evicts nothing ends the loop and
+\*    the value is stored over budget;
+\*  - then insert.
+EvictSets(i, Li, v) ==
   LET H == Held(Li)
       c == Cardinality(H)
-  IN IF c >= cap THEN {E \in SUBSET H : Cardinality(E) = c - ((cap * 9) \div 10)} ELSE {{}}
-LayerPutSet(Li, cap, k, v) ==
-  {[x \in DOMAIN Li |-> IF x = k THEN v ELSE IF x \in E THEN None ELSE Li[x]] : E \in EvictSets(Li, cap)}
+      B == Budgets[i]
+      ttl == Policies[i] = "ttl"
+      fits(E) == B = 0 \/ SumSizes(Cfg, Li, H \ E) + Size(Cfg, v) <= B
+      S1 == IF c >= Caps[i] /\ ~ttl THEN {E \in SUBSET H : Cardinality(E) = c - ((Caps[i] * 9) \div 10)} ELSE {{}}
+      S2(E1) == IF ttl \/ fits(E1) \/ E1 = H THEN {E1}
+                ELSE {E \in SUBSET H : /\ E1 \subseteq E /\ E # E1 /\ (fits(E) \/ E = H)
+                                        /\ \E x \in E \ E1 : ~fits(E \ {x})}
+  IN UNION {S2(E1) : E1 \in S1}
+LayerPutSet(i, Li, k, v) ==
+  IF TooBig(Cfg, i, v) THEN {[Li EXCEPT ![k] = None]}
+  ELSE {[x \in DOMAIN Li |-> IF x = k THEN v ELSE IF x \in E THEN None ELSE Li[x]] : E \in EvictSets(i, Li, v)}
 WithKey(Lx, i, k, v) == [Lx EXCEPT ![i] = [@ EXCEPT ![k] = v]]
 NoKey(Lx, k) == [i \in 1..NL |-> [x \in Keys |-> IF x = k THEN None ELSE Lx[i][x]]]
 
@@ -291,7 +326,7 @@ NoKey(Lx, k) == [i \in 1..NL |-> [x \in Keys |-> IF x = k THEN None ELSE Lx[i][x
 PutSet(Lx, k, v) ==
   {[i \in 1..NL |-> IF i = 1 THEN m
                     ELSE IF "F12b" \in Fixed THEN [Lx[i] EXCEPT ![k] = None] ELSE Lx[i]]
-     : m \in LayerPutSet(Lx[1], Caps[1], k, v)}
+     : m \in LayerPutSet(1, Lx[1], k, v)}
 PutDelP(ks) == IF "F12b" \in Fixed THEN delP \ ks ELSE delP     \* the remove also drops a disk index entry whose file is gone
 RECURSIVE PutsSet(_, _, _)
 PutsSet(S, items, n) ==
@@ -316,7 +351,7 @@ Atomic(e) ==
          IF e.layer >= NL THEN {Out(L, "err", trk, shortE, delP)}
          ELSE LET i == e.layer + 1 IN
               {Out([L EXCEPT ![i] = m], "ok", trk, Touched(shortE, i, e.k), IF i = Dk THEN delP \ {e.k} ELSE delP)
-                 : m \in LayerPutSet(L[i], Caps[i], e.k, e.v)}
+                 : m \in LayerPutSet(i, L[i], e.k, e.v)}
     [] e.op = "get_layer" ->
          IF e.layer >= NL THEN {Out(L, "err", trk, shortE, delP)}
          ELSE IF e.layer + 1 = Dk /\ e.k \in delP THEN {Out(L, "err", trk, shortE, delP \ {e.k})}
@@ -329,7 +364,7 @@ Atomic(e) ==
                  ELSE IF f = Dk /\ e.k \in delP THEN {Out(L, "err", trk, shortE, delP \ {e.k})}
                  ELSE IF L[f][e.k] = None THEN {Out(L, "false", trk, shortE, delP)}
                  ELSE {Out([L EXCEPT ![t] = m], "true", trk, Touched(shortE, t, e.k), delP)
-                         : m \in LayerPutSet(L[t], Caps[t], e.k, L[f][e.k])}
+                         : m \in LayerPutSet(t, L[t], e.k, L[f][e.k])}
     [] e.op = "remove" ->
          {Out(NoKey(L, e.k), IF First(L, e.k) # None \/ e.k \in delP THEN "true" ELSE "false",
               trk \ {e.k}, {p \in shortE : p[2] # e.k}, delP \ {e.k})}
